@@ -226,6 +226,9 @@ def compute_returns_fresh(prog: Program) -> set[str]:
     return fresh
 
 
+_TM: dict = {}
+
+
 def _mutation_sites(fn: Func):
     """(node, receiver expr, kind) for every in-place mutation in fn."""
     for n in walk_own(fn.node):
@@ -243,6 +246,14 @@ def _mutation_sites(fn: Func):
             for t in n.targets:
                 if isinstance(t, ast.Subscript):
                     yield n, t.value, "del [...]"
+    # `x += [...]` on a list/dict/set name extends the object in place
+    tm = _TM.get("tm")
+    if tm is not None:
+        for n in walk_own(fn.node):
+            if isinstance(n, ast.AugAssign) and isinstance(n.target, (ast.Name, ast.Attribute)) and isinstance(n.op, (ast.Add, ast.BitOr, ast.Mult)):
+                names = tm.instance_names(fn.module, n.target)
+                if names and all(x in ("builtins.list", "builtins.dict", "builtins.set", "None") for x in names) and any(x != "None" for x in names):
+                    yield n, n.target, "+= (in place)"
 
 
 def rule_rf_mutations(prog: Program, report: Report) -> None:
@@ -250,6 +261,7 @@ def rule_rf_mutations(prog: Program, report: Report) -> None:
     non-value owner."""
     report.rules.append("RF-mut")
     tm = prog.types
+    _TM["tm"] = tm
     rfresh = compute_returns_fresh(prog)
     fr = Fresh(prog, rfresh)
     total = 0
@@ -322,6 +334,40 @@ def rule_rf_mutations(prog: Program, report: Report) -> None:
                     del why
     report.count("RF mutation sites", total)
     report.expect_at_least("RF-mut", "mutation sites", total, 110)
+    # RF-c (generic): every function that mutates one of its parameters in place (found above) is
+    # only handed fresh containers - computed, not tabulated; the table below names the two audited helpers
+    from ..callgraph import callgraph
+
+    cg = callgraph(prog)
+    mut_params: dict[str, set[str]] = {}
+    for fn in prog.all_funcs():
+        if any(fn.key == s_ or fn.key.startswith(s_ + ".") for s_ in SCRATCH_FUNCS):
+            continue
+        for node, recv, kind in _mutation_sites(fn):
+            if isinstance(recv, ast.Name) and recv.id in fn.params() and recv.id not in ("self", "cls"):
+                rt = tm.instance_names(fn.module, recv)
+                if kind.startswith(".") and rt and all(t.startswith("prosemirror.") for t in rt):
+                    continue
+                mut_params.setdefault(fn.key, set()).add(recv.id)
+    for caller in prog.all_funcs():
+        for c in walk_own(caller.node):
+            if not isinstance(c, ast.Call):
+                continue
+            for callee in cg.resolve_call(caller, c):
+                for pname in mut_params.get(callee.key, ()):
+                    if callee.key in MUTATES_PARAM:
+                        continue  # checked below with its own message
+                    ps = callee.params()
+                    off = 1 if (ps and ps[0] in ("self", "cls") and isinstance(c.func, ast.Attribute)) else 0
+                    idx = ps.index(pname) - off
+                    a = c.args[idx] if 0 <= idx < len(c.args) else next((k.value for k in c.keywords if k.arg == pname), None)
+                    if a is None:
+                        continue
+                    ok = isinstance(a, ast.Name) and fr.fresh_local(caller, a.id, site=c)
+                    if ok:
+                        report.ob("RF-mut", caller.key, f"`{src(c)[:60]}` hands a fresh container to {callee.qual} (which mutates `{pname}`)")
+                    else:
+                        report.violate("RF-mut", caller, c, f"`{src(c)[:70]}` passes a non-fresh container to a mutating function", f"{callee.qual} changes its `{pname}` argument in place; `{src(a)[:40]}` is not a container created in this activation", what="mutating helpers are only handed fresh containers")
     # RF-c: call sites of mutates-param functions pass a fresh list
     for key, pname in MUTATES_PARAM.items():
         callee = prog.func(key)
